@@ -171,7 +171,9 @@ def run_script(params, tape, detail=False):
             raise
         except Exception as e:
             st = sends[i]["start"]
-            told = mon.failed or any(n[2] == "failure" and n[0] >= st - 1e-9 for n in rig.upper.notes)
+            # (a send may also end - raise - because an RSTACK arrived while it was outstanding: the session it belonged to is gone and the upper
+            # layer is told of the reset; the statement allows a send to raise, this clause only rules out raising for no reason at all)
+            told = mon.failed or any(n[2] in ("failure", "rstack") and n[0] >= st - 1e-9 for n in rig.upper.notes)
             sends[i].update(end=loop.time(), outcome="raised", exc=type(e).__name__, failed_at_raise=told)
         else:
             lc = mon.last_covered
